@@ -687,6 +687,13 @@ pub fn encode_with_fixed_block_size<T: Source>(
         stream.add_frame(frame);
     }
 
+    // `add_frame` lowered the minimum block size if the last block was short, but
+    // STREAMINFO's minimum excludes the last block (and must be at least 16).
+    stream
+        .stream_info_mut()
+        .set_block_sizes(block_size, block_size)
+        .unwrap();
+
     let (_, context) = framebuf_and_context;
     stream
         .stream_info_mut()
